@@ -820,6 +820,11 @@ class World:
                                                 'edits_say': delta, 'edits': repr([t for t in touched if t[0] == b])[:200]},
                          strategy=name, where_kind=wk)
                 return
+        if wk == 'whole-program' and not getattr(log, 'exprs_preserved', False):
+            # the pass does not claim to have left the expressions of surviving statements alone
+            # (`EditLog.exprs_preserved` is False: it may pin a context or fold a constant in a statement it
+            # keeps), so a changed header is no unreported change; the arithmetic above still binds it
+            return
         for p, c in al.stmt.items():
             if c[0] == 'same':
                 continue
@@ -852,7 +857,15 @@ class World:
         if M.fingerprint(f.ast) != before_fp:
             self.vio('source-program-modified', {'strategy': op['name']}, strategy=op['name'])
         self.stats.count('ops', 'opaque:' + op['name'])
-        self.add_node(ni, g, op['name'])
+        child = self.add_node(ni, g, op['name'])
+        if g.edits is not None and self.nodes[child]['parent'] == ni:
+            # a whole-program pass that does report its edits: the same account of them is demanded,
+            # and every cursor of the parent forwards sensibly across this one step
+            self.stats.count('ops', 'opaque-with-edit-log:' + op['name'])
+            self.check_edits(f, g, self.nodes[child]['al'], op['name'], 'whole-program')
+            for rec in self.cursors:
+                if self.canon(rec['node']) == self.canon(ni):
+                    self.check_forward(rec, child, 'after-pass')
 
     def do_with_rt(self, op):
         import fpy2 as fp
